@@ -10,8 +10,8 @@ package props
 //      result must equal what the native keepers / queries report on the same state.
 
 import (
-	"os"
 	"encoding/base64"
+	"os"
 
 	"encoding/json"
 	"fmt"
